@@ -792,15 +792,31 @@ func rulePublication(c *core.Ctx) {
 		}
 		o.At(fn.Site(cs[0].Call, "publish"))
 		as, ok := cs[0].V.AST.(*ast.AssignStmt)
-		if !ok {
-			o.Fail("the result of cacheStoreOrLoad is dropped: racing decoders would return different objects")
+		returned := false
+		if rs, isRet := cs[0].V.AST.(*ast.ReturnStmt); isRet && len(rs.Results) == 2 {
+			// return convert(x.cacheStoreOrLoad(...)), nil: the adopted value is what is returned
+			ast.Inspect(rs.Results[0], func(m ast.Node) bool {
+				if m == ast.Node(cs[0].Call) {
+					returned = true
+				}
+				return true
+			})
+		}
+		if !ok && !returned {
+			if es, isExpr := cs[0].V.AST.(*ast.ExprStmt); isExpr && ast.Unparen(es.X) == ast.Expr(cs[0].Call) {
+				o.Fail("the result of cacheStoreOrLoad is dropped: racing decoders would return different objects")
+				return
+			}
+			o.Unrec("what happens to the result of cacheStoreOrLoad was not followed (%s)", c.Prog.Src(cs[0].V.AST))
 			return
 		}
-		res := core.ObjOf(info, as.Lhs[0])
-		for _, r := range g.Returns() {
-			rs := r.AST.(*ast.ReturnStmt)
-			if len(rs.Results) == 2 && core.IsNil(info, rs.Results[1]) && g.PathExists(cs[0].V, r, nil) {
-				o.Require(core.ObjOf(info, rs.Results[0]) == res, "after publishing, Decode returns %s instead of the adopted value", core.ExprStr(rs.Results[0]))
+		if ok {
+			res := core.ObjOf(info, as.Lhs[0])
+			for _, r := range g.Returns() {
+				rs := r.AST.(*ast.ReturnStmt)
+				if len(rs.Results) == 2 && core.IsNil(info, rs.Results[1]) && g.PathExists(cs[0].V, r, nil) {
+					o.Require(core.ObjOf(info, rs.Results[0]) == res, "after publishing, Decode returns %s instead of the adopted value", core.ExprStr(rs.Results[0]))
+				}
 			}
 		}
 		guard := g.GuardedBy(cs[0].V, func(a core.Atom) bool {
